@@ -775,20 +775,27 @@ Proof.
            (fun p Hp => addr_cond_eval' p (fv_account x) (row_of (EVol x)) eq_refl eq_refl (H p Hp))).
 Qed.
 
+Lemma need_segments_collect : forall f, need_segments f = true -> collect_addrs f <> [].
+Proof.
+  intros f. unfold need_segments, collect_addrs. induction (flt_leaves f) as [|[[o k] v] ls IH]; simpl; [discriminate|].
+  intros H. apply orb_true_iff in H. destruct H as [H|H].
+  - destruct v; try discriminate H. apply andb_true_iff in H. destruct H as [Hk _]. rewrite Hk. simpl. discriminate.
+  - intros E. apply app_eq_nil in E. destruct E as [_ E]. now apply IH.
+Qed.
+
 Lemma prefilter_shape : forall R pit f addrs, flt_prefilter R pit f = Some addrs ->
   (R = RVol \/ R = RAgg) /\ addrs = collect_addrs f /\ safe_lateral false f = true /\ addrs <> [].
 Proof.
   intros R pit f addrs H. unfold flt_prefilter in H.
-  assert (Hne : forall l : list string, existsb is_partial l = true -> l <> []) by (intros [|? ?] E; [discriminate E|discriminate]).
   destruct R; try discriminate H.
-  - destruct (existsb is_partial (collect_addrs f)) eqn:E1; simpl in H; [|discriminate].
-    destruct (safe_lateral false f) eqn:E2; inversion H; subst. repeat split; auto.
+  - destruct (need_segments f) eqn:E1; simpl in H; [|discriminate].
+    destruct (safe_lateral false f) eqn:E2; inversion H; subst. repeat split; auto. now apply need_segments_collect.
   - destruct pit.
-    + destruct (existsb is_partial (collect_addrs f)) eqn:E1; simpl in H; [|discriminate].
-      destruct (safe_lateral false f) eqn:E2; inversion H; subst. repeat split; auto.
+    + destruct (need_segments f) eqn:E1; simpl in H; [|discriminate].
+      destruct (safe_lateral false f) eqn:E2; inversion H; subst. repeat split; auto. now apply need_segments_collect.
     + destruct (safe_lateral false f) eqn:E2; [|rewrite andb_false_r in H; simpl in H; discriminate].
       destruct (collect_addrs f) as [|a0 l0] eqn:E3; [rewrite andb_false_r in H; discriminate|].
-      destruct ((uses_key is_meta_key f || existsb is_partial (a0 :: l0)) && uses_key (fun k => match k with KAddress => true | _ => false end) f);
+      destruct ((uses_key is_meta_key f || need_segments f) && uses_key (fun k => match k with KAddress => true | _ => false end) f);
         simpl in H; inversion H; subst. repeat split; auto. discriminate.
 Qed.
 
